@@ -50,6 +50,10 @@ func (le *linEval) window(v ssa.Value) (root ssa.Value, lo linExpr, hi *linExpr)
 		return r, nlo, nh
 	case *ssa.ChangeType:
 		return le.window(x.X)
+	case *ssa.Phi:
+		if c := canonPhi(x); c != ssa.Value(x) {
+			return le.window(c)
+		}
 	case *ssa.UnOp:
 		if x.Op == token.MUL {
 			if fa, ok := x.X.(*ssa.FieldAddr); ok {
@@ -122,7 +126,209 @@ func wireSites(le *linEval, fn *ssa.Function) []wireSite {
 			}
 		}
 	})
+	out = append(out, compositeSites(le, fn, out)...)
 	return out
+}
+
+// compositeSites recognises hand-written big-endian accessors and reports them as the fixed-width
+// sites they are equivalent to:
+//
+//	uint32(b[i])<<24 | uint32(b[i+1])<<16 | uint32(b[i+2])<<8 | uint32(b[i+3])      Uint32 at [i:i+4)
+//	b[i], b[i+1] = byte(v>>8), byte(v)                                              PutUint16 at [i:i+2)
+//
+// Every byte of the group must be present with exactly the shift of its position; the read is attributed
+// to the root of the OR tree, the write to the last store of the group (all in one block).
+func compositeSites(le *linEval, fn *ssa.Function, single []wireSite) []wireSite {
+	var out []wireSite
+	loadSite := map[ssa.Value]*wireSite{}
+	for i := range single {
+		if single[i].Kind == "load" {
+			loadSite[single[i].Val] = &single[i]
+		}
+	}
+	bitsOf := func(t types.Type) int64 {
+		if w, signed, ok := intWidth(t); ok && !signed {
+			return int64(w)
+		}
+		return 0
+	}
+	// ---- reads
+	isOr := func(v ssa.Value) (*ssa.BinOp, bool) {
+		b, ok := v.(*ssa.BinOp)
+		return b, ok && (b.Op == token.OR || b.Op == token.ADD && false)
+	}
+	eachInstr(fn, func(_ *ssa.BasicBlock, _ int, in ssa.Instruction) {
+		root, ok := isOr(asValue(in))
+		if !ok {
+			return
+		}
+		// maximal tree only
+		for _, u := range *root.Referrers() {
+			if b, isB := isOr(asValue(u)); isB && b != root {
+				return
+			}
+		}
+		bits := bitsOf(root.Type())
+		if bits != 16 && bits != 32 && bits != 64 {
+			return
+		}
+		n := bits / 8
+		type leaf struct {
+			ld    *wireSite
+			shift int64
+		}
+		var leaves []leaf
+		bad := false
+		var walk func(v ssa.Value)
+		walk = func(v ssa.Value) {
+			if b, isB := isOr(v); isB {
+				walk(b.X)
+				walk(b.Y)
+				return
+			}
+			shift := int64(0)
+			if b, isB := v.(*ssa.BinOp); isB && b.Op == token.SHL {
+				k, isC := constInt(b.Y)
+				if !isC {
+					bad = true
+					return
+				}
+				shift = k
+				v = b.X
+			}
+			cv, isConv := v.(*ssa.Convert)
+			if !isConv || bitsOf(cv.Type()) != bits || bitsOf(cv.X.Type()) != 8 {
+				bad = true
+				return
+			}
+			ls := loadSite[cv.X]
+			if ls == nil {
+				bad = true
+				return
+			}
+			leaves = append(leaves, leaf{ls, shift})
+		}
+		walk(root)
+		if bad || int64(len(leaves)) != n {
+			return
+		}
+		// order by shift descending = ascending offset
+		var first *wireSite
+		for _, l := range leaves {
+			if l.shift == 8*(n-1) {
+				first = l.ld
+			}
+		}
+		if first == nil {
+			return
+		}
+		seen := map[int64]bool{}
+		for _, l := range leaves {
+			if l.ld.Root != first.Root || l.shift%8 != 0 {
+				return
+			}
+			d := l.ld.Lo.add(first.Lo, -1)
+			c, isC := d.isConst()
+			if !isC || c < 0 || c >= n || l.shift != 8*(n-1-c) || seen[c] {
+				return
+			}
+			seen[c] = true
+		}
+		hi := first.Lo.add(linExpr{C: n, Terms: map[string]int64{}}, 1)
+		out = append(out, wireSite{In: root, Kind: fmt.Sprintf("Uint%d", bits), Role: "src", Root: first.Root, Lo: first.Lo, Hi: &hi, Val: root, Width: n})
+	})
+	// ---- writes
+	type wkey struct {
+		root ssa.Value
+		src  ssa.Value
+		blk  *ssa.BasicBlock
+	}
+	type wbyte struct {
+		site  *wireSite
+		shift int64
+	}
+	groups := map[wkey][]wbyte{}
+	var order []wkey
+	for i := range single {
+		st := &single[i]
+		if st.Kind != "store" {
+			continue
+		}
+		cv, isConv := st.Val.(*ssa.Convert)
+		if !isConv || bitsOf(cv.Type()) != 8 {
+			continue
+		}
+		v := cv.X
+		shift := int64(0)
+		if b, isB := v.(*ssa.BinOp); isB && b.Op == token.SHR {
+			k, isC := constInt(b.Y)
+			if !isC {
+				continue
+			}
+			shift = k
+			v = b.X
+		}
+		if bitsOf(v.Type()) == 0 || bitsOf(v.Type()) == 8 {
+			continue
+		}
+		k := wkey{st.Root, v, st.In.Block()}
+		if _, have := groups[k]; !have {
+			order = append(order, k)
+		}
+		groups[k] = append(groups[k], wbyte{st, shift})
+	}
+	for _, k := range order {
+		g := groups[k]
+		bits := bitsOf(k.src.Type())
+		n := bits / 8
+		if int64(len(g)) != n {
+			continue
+		}
+		var first *wireSite
+		for _, b := range g {
+			if b.shift == 8*(n-1) {
+				first = b.site
+			}
+		}
+		if first == nil {
+			continue
+		}
+		okAll := true
+		seen := map[int64]bool{}
+		var last ssa.Instruction
+		for _, b := range g {
+			d := b.site.Lo.add(first.Lo, -1)
+			c, isC := d.isConst()
+			if !isC || c < 0 || c >= n || b.shift != 8*(n-1-c) || seen[c] {
+				okAll = false
+				break
+			}
+			seen[c] = true
+			if last == nil || instrIndex(b.site.In) > instrIndex(last) {
+				last = b.site.In
+			}
+		}
+		if !okAll {
+			continue
+		}
+		hi := first.Lo.add(linExpr{C: n, Terms: map[string]int64{}}, 1)
+		out = append(out, wireSite{In: last, Kind: fmt.Sprintf("PutUint%d", bits), Role: "dst", Root: first.Root, Lo: first.Lo, Hi: &hi, Val: k.src, Width: n})
+	}
+	return out
+}
+
+func asValue(in ssa.Instruction) ssa.Value {
+	v, _ := in.(ssa.Value)
+	return v
+}
+
+func instrIndex(in ssa.Instruction) int {
+	for i, x := range in.Block().Instrs {
+		if x == in {
+			return i
+		}
+	}
+	return -1
 }
 
 // constRange returns (lo, hi) when the site's range is constant.
